@@ -154,16 +154,16 @@ fn read_escaped_string<'a>(c: &mut Cursor<&'a [u8]>) -> anyhow::Result<Option<&'
     return Ok(None);
   }
 
-  if read_byte(c)? != b'\\' {
-    unread_bytes(c, 1)?;
-    return read_string(c);
-  }
+  // Peek at the next two bytes: an escaped string starts with a backslash followed by an escape
+  // character. Anything else (including a lone backslash at the end of the input) is a plain string.
+  let buf: &'a [u8] = c.get_ref();
+  let pos = c.position() as usize;
 
-  let esc_char = read_byte(c)?;
-  if !is_escape_char(esc_char) {
-    unread_bytes(c, 2)?;
+  if buf[pos] != b'\\' || pos + 1 >= buf.len() || !is_escape_char(buf[pos + 1]) {
     return read_string(c);
   }
+  let esc_char = buf[pos + 1];
+  c.set_position((pos + 2) as u64);
 
   let from = c.position() as usize;
   let mut to = from;
